@@ -95,7 +95,7 @@ def dump_fn(spec):
             pat = head + "(" + ", ".join(names) + ")"
         else:
             pat = head
-        arms.append(f'{pat} => format!("V{vi}[{";".join("{:?}" for _ in names)}]", {", ".join(names)}),'.replace(", )", ")"))
+        arms.append(f'{pat} => format!("v{vi}[{";".join("{:?}" for _ in names)}]", {", ".join(names)}),'.replace(", )", ")"))
     return f"fn dump(x: &{inst}) -> ::std::string::String {{ match x {{ {' '.join(arms)} }} }}"
 
 
